@@ -4,7 +4,7 @@
    here are the mechanisms the property rests on, for every input. *)
 From Coq Require Import List NArith Bool.
 From Verif Require Import Base.Res Base.Text Gen.GenTokens Model.Lexer Model.ExprParser Proofs.LexerTile Proofs.RespellProofs Proofs.ExprParserProofs Proofs.ExprInstance.
-From Verif Require Model.StParser Model.StInstance Proofs.StExprProofs Proofs.StStmtProofs Proofs.StInstanceProofs.
+From Verif Require Model.StParser Model.DeclParser Model.StInstance Proofs.StExprProofs Proofs.StStmtProofs Proofs.StInstanceProofs Proofs.DeclProofs Proofs.DeclInstanceProofs.
 Import ListNotations.
 
 (* every token of token.rs whose spelling contains a letter is matched case-insensitively (table regenerated each run) *)
@@ -63,3 +63,30 @@ Theorem C08_statement_respelling :
   StInstance.parse_fb_tokens (w00 ++ fb :: w0 ++ nm :: w1 ++ StStmtProofs.flat_l token l ++ w2 ++ en :: w3) =
   StInstance.parse_fb_tokens (w00' ++ fb' :: w0' ++ nm' :: w1' ++ StStmtProofs.flat_l token l' ++ w2' ++ en' :: w3').
 Proof. exact StInstanceProofs.parse_fb_respelled. Qed.
+
+(* two well-formed spellings of a function block with the same declarations and the same statements -- any trivia at any
+   slot, redundant parentheses; keyword and identifier case lie below the token classes -- are read alike *)
+Theorem C08_declaration_respelling : forall w00 fb w0 nm (bl : list (DeclProofs.swb token)) w1 (l : StStmtProofs.sl token) w2 en w3
+    w00' fb' w0' nm' (bl' : list (DeclProofs.swb token)) w1' (l' : StStmtProofs.sl token) w2' en' w3',
+  StExprProofs.all_triv token StInstance.tok_class w00 -> t_kind fb = KFunctionBlock ->
+  StExprProofs.all_triv token StInstance.tok_class w0 -> t_kind nm = KIdentifier ->
+  Forall (DeclProofs.wf_wb token StInstance.tok_class) bl ->
+  StExprProofs.all_triv token StInstance.tok_class w1 ->
+  StStmtProofs.wf_l token StInstance.tok_class StInstance.op_level true l ->
+  StExprProofs.all_triv token StInstance.tok_class w2 -> t_kind en = KEndFunctionBlock ->
+  StExprProofs.all_triv token StInstance.tok_class w3 ->
+  (StStmtProofs.absorbs token l = true -> w2 = []) ->
+  StExprProofs.all_triv token StInstance.tok_class w00' -> t_kind fb' = KFunctionBlock ->
+  StExprProofs.all_triv token StInstance.tok_class w0' -> t_kind nm' = KIdentifier ->
+  Forall (DeclProofs.wf_wb token StInstance.tok_class) bl' ->
+  StExprProofs.all_triv token StInstance.tok_class w1' ->
+  StStmtProofs.wf_l token StInstance.tok_class StInstance.op_level true l' ->
+  StExprProofs.all_triv token StInstance.tok_class w2' -> t_kind en' = KEndFunctionBlock ->
+  StExprProofs.all_triv token StInstance.tok_class w3' ->
+  (StStmtProofs.absorbs token l' = true -> w2' = []) ->
+  flat_map (DeclProofs.erase_wb token StInstance.tok_class t_text StInstance.tok_num StInstance.ty_name) bl =
+  flat_map (DeclProofs.erase_wb token StInstance.tok_class t_text StInstance.tok_num StInstance.ty_name) bl' ->
+  StStmtProofs.erase_l token t_text StInstance.tok_num l = StStmtProofs.erase_l token t_text StInstance.tok_num l' ->
+  StInstance.parse_fbd_tokens (w00 ++ fb :: w0 ++ nm :: DeclProofs.flat_wbs token bl ++ w1 ++ StStmtProofs.flat_l token l ++ w2 ++ en :: w3) =
+  StInstance.parse_fbd_tokens (w00' ++ fb' :: w0' ++ nm' :: DeclProofs.flat_wbs token bl' ++ w1' ++ StStmtProofs.flat_l token l' ++ w2' ++ en' :: w3').
+Proof. exact DeclInstanceProofs.parse_fbd_respelled. Qed.
